@@ -287,3 +287,27 @@ package providers
 //@     invariant len(matchingGroups) >= 0 && p.$miss > old(p.$miss)
 //@     invariant forall j :: 0 <= j && j < len(matchingGroups) ==> (exists k :: 0 <= k && k < len(D) && D[k] == matchingGroups[j])
 //@     invariant forall j :: 0 <= j && j < len(matchingGroups) ==> (exists i :: 0 <= i && i < len(allowedGroups) && allowedGroups[i] == matchingGroups[j])
+
+// The fill functions: the member set is exactly the directory's member list for that group.
+//@ func (p *GoogleProvider) PopulateMembers(group string) (groups.MemberSet, error)
+//@   modifies clock
+//@   let L = @ListMemberships#1.0
+//@   ensures [C17] asks_the_directory_about_this_group: called(@ListMemberships#1) && arg(@ListMemberships#1, 0) == old(p.AdminService) && arg(@ListMemberships#1, 1) == group
+//@   ensures [C17] member_set_is_the_directorys_list: result.1 == nil ==> @ListMemberships#1.1 == nil && result.0 != nil && (forall m string {m in result.0} :: (m in result.0) <==> (exists i :: 0 <= i && i < len(L) && L[i] == m))
+//@   ensures [C17] error_passed_on: @ListMemberships#1.1 != nil ==> result.1 == @ListMemberships#1.1 && result.0 == nil
+//@   loop 1
+//@     invariant memberSet != nil
+//@     invariant forall m string {m in memberSet} :: (m in memberSet) <==> (exists i :: 0 <= i && i < $i && L[i] == m)
+
+//@ interface CognitoAdminProvider.ListMemberships(groupName string) ([]string, error)
+//@   modifies clock
+
+//@ func (p *AmazonCognitoProvider) PopulateMembers(group string) (groups.MemberSet, error)
+//@   modifies clock
+//@   let L = @ListMemberships#1.0
+//@   ensures [C17] asks_the_directory_about_this_group: called(@ListMemberships#1) && arg(@ListMemberships#1, 0) == old(p.AdminService) && arg(@ListMemberships#1, 1) == group
+//@   ensures [C17] member_set_is_the_directorys_list: result.1 == nil ==> @ListMemberships#1.1 == nil && result.0 != nil && (forall m string {m in result.0} :: (m in result.0) <==> (exists i :: 0 <= i && i < len(L) && L[i] == m))
+//@   ensures [C17] error_passed_on: @ListMemberships#1.1 != nil ==> result.1 == @ListMemberships#1.1 && result.0 == nil
+//@   loop 1
+//@     invariant memberSet != nil
+//@     invariant forall m string {m in memberSet} :: (m in memberSet) <==> (exists i :: 0 <= i && i < $i && L[i] == m)
